@@ -306,6 +306,9 @@ class SymList:
                     pass
             # SQL-derived values
             if isinstance(v, ast.Subscript) and isinstance(v.value, ast.Call) and isinstance(v.value.func, ast.Attribute) \
+                    and v.value.func.attr == "fetchone" and isinstance(v.value.func.value, ast.Call):
+                self.call_effect(v.value.func.value)          # cursor.execute(SQL).fetchone()[0]
+            if isinstance(v, ast.Subscript) and isinstance(v.value, ast.Call) and isinstance(v.value.func, ast.Attribute) \
                     and v.value.func.attr == "fetchone" and self.last_sql is not None:
                 sel = self.last_sql
                 e0 = sel.columns[0][0]
@@ -325,6 +328,14 @@ class SymList:
             except NotAlgebraic:
                 pass
             return
+        if isinstance(st, ast.Assign) and len(st.targets) == 1 and isinstance(st.targets[0], (ast.Tuple, ast.List)) and len(st.targets[0].elts) == 1 \
+                and isinstance(st.targets[0].elts[0], ast.Name):
+            # (n,) = cursor.fetchone()   is   n = cursor.fetchone()[0]
+            v = st.value
+            eq = ast.Assign(targets=[st.targets[0].elts[0]], value=ast.Subscript(value=v, slice=ast.Constant(value=0), ctx=ast.Load()))
+            ast.copy_location(eq, st)
+            ast.copy_location(eq.value, st)
+            return self.stmt(eq)
         if isinstance(st, ast.AugAssign) and isinstance(st.target, ast.Name) and isinstance(st.op, ast.Add) and st.target.id in self.lists:
             self.lists[st.target.id] = self.lists[st.target.id] + self.make_items(st.value)
             return
